@@ -43,6 +43,8 @@ def simplest(v, dtype=np.float32):
   if dt.kind != 'f':
     dt = np.dtype(np.float32)
   ulp = abs(float(np.spacing(np.asarray(v, dtype=dt))))
+  if not math.isfinite(ulp):      # largest finite float
+    ulp = abs(v) * 2.0 ** -23
   lo, hi = Fraction(v) - Fraction(ulp) / 2, Fraction(v) + Fraction(ulp) / 2
 
   def sb(lo, hi):
